@@ -8,6 +8,7 @@ import (
 	"io"
 	"log/slog"
 	"net/http"
+	"slices"
 	"strings"
 
 	sse "github.com/tmaxmax/go-sse"
@@ -433,8 +434,11 @@ func serveOne(o *Outcome, ch *Chooser, logf func(string, ...any), srv *sse.Serve
 			*sessTopics = t
 			logf("OnSession topics %s", fmtTopics(t))
 		case 2:
-			*onSession = 2
-			logf("OnSession no topics")
+			// "DefaultTopic if none": none is a nil slice as much as an empty one (e.g. a filtered list)
+			*onSession = 1
+			*sessTopics = make([]string, 0, 4)
+			logf("OnSession empty, non-nil topics")
+			o.probe("OnSession returned an empty non-nil topic list")
 		case 3:
 			reject = true
 			rejectWrites = ch.Chance(1, 2, "rejection writes a response")
@@ -512,7 +516,7 @@ func serveOne(o *Outcome, ch *Chooser, logf func(string, ...any), srv *sse.Serve
 		if sub.LastEventID != wantID {
 			o.violate("C16", "last-event-id", pfx+"provider got LastEventID %q (set=%v), want %q (set=%v)", sub.LastEventID.String(), sub.LastEventID.IsSet(), wantID.String(), wantID.IsSet())
 		}
-		if strings.Join(sub.Topics, "\x00") != strings.Join(wantTopics, "\x00") {
+		if !slices.Equal(sub.Topics, wantTopics) {
 			o.violate("C16", "topics", pfx+"provider got topics %s, want %s", fmtTopics(sub.Topics), fmtTopics(wantTopics))
 		}
 		if _, ok := sub.Client.(*sse.Session); !ok {
